@@ -574,6 +574,75 @@ mut("C12", "home-in-quotes", "R12-1", "tilde expands inside quotes",
 mut("C12", "home-template", "R12-4", "home directory used as template",
     (S, 'let to = format!("{}$tail", home.replace("$", "$$"));', 'let to = format!("{}$tail", home);'))
 
+mut("C12", "range-excludes-end", "R12-6|shell::expand_brace_range|ascending|inclusive", "{1..3} stops before 3",
+    (S, "            while n <= end {", "            while n < end {"))
+mut("C12", "range-desc-excludes-end", "R12-6|shell::expand_brace_range|descending|inclusive", "{3..1} stops before 1",
+    (S, "            while n >= end {", "            while n > end {"))
+mut("C12", "range-push-after-step", "R12-6|shell::expand_brace_range|ascending|push", "the start value is skipped",
+    (S, """                result.push(format!("{}", n));
+                n = match n.checked_add(incr) {
+                    Some(x) => x,
+                    None => break,
+                };
+""", """                n = match n.checked_add(incr) {
+                    Some(x) => x,
+                    None => break,
+                };
+                result.push(format!("{}", n));
+"""))
+mut("C12", "range-direction-flipped", "R12-6|shell::expand_brace_range|descending|selected", "descending loop chosen when start < end",
+    (S, "        if start > end {\n            while n >= end {", "        if start < end {\n            while n >= end {"))
+ref("range-loop-to-loop-break", ["C12", "C05"], "while n <= end rewritten as loop { if n > end { break } .. }",
+    (S, """            while n <= end {
+                result.push(format!("{}", n));
+                n = match n.checked_add(incr) {
+                    Some(x) => x,
+                    None => break,
+                };
+            }
+""", """            loop {
+                if n > end {
+                    break;
+                }
+                result.push(format!("{}", n));
+                n = match n.checked_add(incr) {
+                    Some(x) => x,
+                    None => break,
+                };
+            }
+"""))
+mut("C10", "rewrite-loop-without-fixpoint-test", "R10-5|shell::expand_env|fixpoint",
+    "the loop re-applying expand_one_env loses its `nothing changed` exit: `echo ${HOME` hangs again",
+    (S, """            let expanded = expand_one_env(sh, &_token);
+            if expanded == _token {
+                // nothing expand_one_env can rewrite, e.g. an unterminated `${FOO`
+                break;
+            }
+            _token = expanded;
+""", """            _token = expand_one_env(sh, &_token);
+"""))
+mut("C05", "rewrite-loop-without-fixpoint-test", "R05-2|shell::expand_env|loop",
+    "same edit, seen by the loop rule of C05",
+    (S, """            let expanded = expand_one_env(sh, &_token);
+            if expanded == _token {
+                // nothing expand_one_env can rewrite, e.g. an unterminated `${FOO`
+                break;
+            }
+            _token = expanded;
+""", """            _token = expand_one_env(sh, &_token);
+"""))
+ref("fixpoint-test-as-ne", ["C10", "C05"], "the fixpoint test written as `if expanded != _token { assign } else { break }`",
+    (S, """            if expanded == _token {
+                // nothing expand_one_env can rewrite, e.g. an unterminated `${FOO`
+                break;
+            }
+            _token = expanded;
+""", """            if expanded != _token {
+                _token = expanded;
+            } else {
+                break;
+            }
+"""))
 # ------------------------------------------------------------------ C13
 mut("C13", "env-resets-tag", "R13-2", "expand_env drops the quote tag of the token it rewrites",
     (S, '''    for (i, text) in buff.iter().rev() {
